@@ -337,7 +337,7 @@ impl<'a> Visitor<'a> {
         config: Rc<RefCell<Configuration>>,
         forward_rule: &AstForwardRule,
     ) -> SassResult<Rc<RefCell<Configuration>>> {
-        let mut new_values = BTreeMap::from_iter((*config).borrow().values.iter());
+        let mut new_values = IndexMap::from_iter((*config).borrow().values.iter());
 
         for variable in &forward_rule.configuration {
             if variable.is_guarded {
@@ -716,7 +716,7 @@ impl<'a> Visitor<'a> {
         let configuration = if use_rule.configuration.is_empty() {
             Rc::new(RefCell::new(Configuration::empty()))
         } else {
-            let mut values = BTreeMap::new();
+            let mut values = IndexMap::new();
 
             for var in use_rule.configuration {
                 let value = self.visit_expr(var.expr.node)?;
